@@ -274,7 +274,13 @@ def check_covariances_smoother(ctx, cfg, d, raw_states, sol, scales, case, sigp)
             g = sm.normal_slices(cfg.fact, L.unstack(sol.u, i))[j]
             fv = sl[i][j]["cov"]
             sv = np.array([fv[a, a] * f * f + (mm[a] * Fraction(1, 10**10)) ** 2 + Fraction(1, 10**60) for a in range(n)], dtype=object)
-            dm = sm._dev_vec(g[0], mm, np.abs(sm.tofloat(mm)) + np.sqrt(sm.tofloat(sv)))
+            # natural magnitude of the summands of the backward mean A x + b (rounding is relative to it; for a state that is
+            # identically zero the exact mean is 0 and the implementation returns rounding noise of that magnitude)
+            nat = np.zeros(n)
+            if i < N:
+                A_, b0_, _Q = sm.den_float(sl[i + 1][j]["bw"])
+                nat = np.abs(A_) @ np.abs(sm.tofloat(sm.normal_slices(cfg.fact, L.unstack(sol.u, i + 1))[j][0])) + np.abs(b0_)
+            dm = sm._dev_vec(g[0], mm, np.abs(sm.tofloat(mm)) + np.sqrt(sm.tofloat(sv)) + nat)
             dc = sm._dev_cov(g[1], mc, sv)
             c = dict(case, time_index=i, slice=j)
             kap = L.kappa_q(cfg.q)
